@@ -40,7 +40,15 @@ fn main() {
     let mut lines: Vec<String> = vec![];
     let stats;
     let variant = arg(&args, "--variant").unwrap_or_default();
-    if comp == "budget" || comp == "limit" {
+    if comp == "backoff" {
+        let (nr, ne) = if mode == "replay" {
+            let input = std::fs::read_to_string(arg(&args, "--in").expect("--in")).expect("read input");
+            adapters::backoff::replay(&input, &mut lines)
+        } else {
+            adapters::backoff::run_backoff(seed, size, &mut lines)
+        };
+        stats = RunStats { runs: nr, events: ne, skipped: 0 };
+    } else if comp == "budget" || comp == "limit" {
         let (ns, ne, ex) = if mode == "replay" {
             let input = std::fs::read_to_string(arg(&args, "--in").expect("--in")).expect("read input");
             let (a, b) = adapters::budget::replay(&input, &mut lines);
